@@ -20,6 +20,8 @@ def twin_of(case):
     t["faults"] = []
     if "base_git" in t:
         t["env"]["git"] = t.pop("base_git")
+    if "base_hashseed" in t:
+        t["hashseed"] = t.pop("base_hashseed")
     for k, v in (t.pop("base_env", None) or {}).items():
         if v is None:
             t["env"].pop(k, None)
@@ -30,7 +32,7 @@ def twin_of(case):
 
 
 def is_faulty(case):
-    return bool(case.get("faults")) or "base_git" in case or "base_env" in case or (case["env"].get("git") in _plan.GIT_HANDLED + _plan.GIT_UNHANDLED)
+    return bool(case.get("faults")) or "base_git" in case or "base_env" in case or "base_hashseed" in case or (case["env"].get("git") in _plan.GIT_HANDLED + _plan.GIT_UNHANDLED)
 
 
 def make_faulty(plan, variant):
@@ -206,12 +208,12 @@ def evaluate_faulty(ctx, fplan, twin_res, twin_data, want_events=False):
             c = "SILENT_FAULT"
         elif res["delivered"]:
             c = "HANDLED_FAULT_CHANGED_OUTPUT"
-        elif fplan.get("base_env") or fplan.get("base_git"):
+        elif fplan.get("base_env") or fplan.get("base_git") or "base_hashseed" in fplan:
             c = "ENVIRONMENT_CHANGED_OUTPUT"  # a benign environment difference, yet the header broke
         else:
             c = "NONDETERMINISTIC_OUTPUT"
         d = {"delivered": res["delivered"], "oracle_class": v, "oracle": detail, "out_len": res["out_len"], "twin_out_len": twin_res["out_len"],
-             "env_changed": sorted(list((fplan.get("base_env") or {}).keys()) + (["git"] if fplan.get("base_git") else []))}
+             "env_changed": sorted(list((fplan.get("base_env") or {}).keys()) + (["git"] if fplan.get("base_git") else []) + (["PYTHONHASHSEED"] if "base_hashseed" in fplan else []))}
         rec["violations"].append({"class": c, "sig": signature(c, d), "detail": d})
     else:
         rec["outcome"] = "different_bytes_but_valid_header" if v is None else "escalated_" + str(v)
